@@ -11,6 +11,7 @@ system prescribes, with the address of logical position `(row, col)` for every y
 -/
 import Matreex.Model.IterMut
 import Matreex.Lemmas.Matrix
+import Matreex.Lemmas.IterMut
 
 namespace Matreex.C03
 open Matreex Matreex.IterMut
@@ -173,6 +174,383 @@ structure CfgOk {α : Type} (cfg : Cfg) (m : Matrix α) : Prop where
 def openIter {α : Type} (cfg : Cfg) (m : Matrix α) (rows : Bool) : M Vecs :=
   if rows then Vecs.rowsMut cfg m.order m.shape else Vecs.colsMut cfg m.order m.shape
 
+/-! ### refinement: system invariant and per-call lemma -/
+
+/-- the concrete state `s` stands for the abstract state `a`: the outer iterator is the deque of
+vector numbers with `a.F` / `a.B` taken, the `i`-th inner iterator is the deque of positions of
+vector `a.inners[i].k` with `f` / `b` taken -/
+def SysInv (cfg : Cfg) (AS AL VS VL : Nat) (s : Sys) (a : ASys) : Prop :=
+  RV cfg (lower0 cfg) AS AL VS VL s.outer a.F a.B ∧
+  Rel2 (fun it ai => R cfg (A cfg (lower0 cfg) AS ai.k) VS VL it ai.f ai.b ∧ ai.k < AL) s.inners a.inners
+
+theorem Y_addr {α : Type} (cfg : Cfg) (m : Matrix α) (rows : Bool) (AS VS : Nat)
+    (hoff : ∀ k t, elemOffset m rows k t = k * AS + t * VS) (k t : Nat) :
+    Y cfg (A cfg (lower0 cfg) AS k) VS t = addrOf cfg m rows (k, t) := by
+  rw [Y_eq]; unfold addrOf; simp only [hoff]
+
+theorem step_refines {α : Type} (cfg : Cfg) (m : Matrix α) (rows : Bool) (AS AL VS VL : Nat)
+    (hoff : ∀ k t, elemOffset m rows k t = k * AS + t * VS)
+    (hG : VL ≠ 0 → AL ≠ 0 → MValid cfg (lower0 cfg) AS AL VS VL)
+    (s : Sys) (a : ASys) (hinv : SysInv cfg AS AL VS VL s a) (c : Call) :
+    ∃ s', sysStep cfg s c = .ok (s', concretize cfg m rows (absStep AL VL a c).2) ∧
+      SysInv cfg AS AL VS VL s' (absStep AL VL a c).1 := by
+  obtain ⟨hrv, hrel⟩ := hinv
+  cases c with
+  | oNext =>
+    obtain ⟨h1, h2⟩ := vecs_next_refines cfg (lower0 cfg) AS AL VS VL s.outer a.F a.B hrv
+    by_cases hlt : a.F + a.B < AL
+    · obtain ⟨nth, it', e, hrv', hr⟩ := h1 hlt
+      simp only [sysStep, absStep, e, hlt, ↓reduceIte, bind, Except.bind, pure, Except.pure, concretize]
+      exact ⟨_, rfl, hrv', hrel.snoc ⟨hr, by show a.F < AL; omega⟩⟩
+    · have e := h2 hlt
+      simp only [sysStep, absStep, e, hlt, ↓reduceIte, bind, Except.bind, pure, Except.pure, concretize]
+      exact ⟨_, rfl, hrv, hrel⟩
+  | oNextBack =>
+    obtain ⟨h1, h2⟩ := vecs_nextBack_refines cfg (lower0 cfg) AS AL VS VL s.outer a.F a.B hrv
+    by_cases hlt : a.F + a.B < AL
+    · obtain ⟨nth, it', e, hrv', hr⟩ := h1 hlt
+      simp only [sysStep, absStep, e, hlt, ↓reduceIte, bind, Except.bind, pure, Except.pure, concretize]
+      exact ⟨_, rfl, hrv', hrel.snoc ⟨hr, by show AL - 1 - a.B < AL; omega⟩⟩
+    · have e := h2 hlt
+      simp only [sysStep, absStep, e, hlt, ↓reduceIte, bind, Except.bind, pure, Except.pure, concretize]
+      exact ⟨_, rfl, hrv, hrel⟩
+  | oLen =>
+    have e := vecs_len_refines cfg (lower0 cfg) AS AL VS VL s.outer a.F a.B hrv
+    simp only [sysStep, absStep, e, bind, Except.bind, pure, Except.pure, concretize]
+    exact ⟨_, rfl, hrv, hrel⟩
+  | iNext i =>
+    rcases hrel.get i with ⟨hn, hn'⟩ | ⟨it, ai, hs, ha, hr, hk⟩
+    · simp only [sysStep, absStep, hn, hn', pure, Except.pure, concretize]
+      exact ⟨_, rfl, hrv, hrel⟩
+    · obtain ⟨h1, h2⟩ := next_refines cfg (A cfg (lower0 cfg) AS ai.k) VS VL it ai.f ai.b hr
+      by_cases hlt : ai.f + ai.b < VL
+      · have hv := (hG (by omega) (by omega)).vector ai.k hk
+        obtain ⟨it', e, hr'⟩ := h1 hlt hv
+        rw [Y_addr cfg m rows AS VS hoff] at e
+        simp only [sysStep, absStep, hs, ha, e, hlt, ↓reduceIte, bind, Except.bind, pure, Except.pure, concretize]
+        exact ⟨_, rfl, hrv, hrel.set i ⟨hr', hk⟩⟩
+      · have e := h2 hlt
+        simp only [sysStep, absStep, hs, ha, e, hlt, ↓reduceIte, bind, Except.bind, pure, Except.pure, concretize]
+        exact ⟨_, rfl, hrv, hrel.set_left i ha ⟨hr, hk⟩⟩
+  | iNextBack i =>
+    rcases hrel.get i with ⟨hn, hn'⟩ | ⟨it, ai, hs, ha, hr, hk⟩
+    · simp only [sysStep, absStep, hn, hn', pure, Except.pure, concretize]
+      exact ⟨_, rfl, hrv, hrel⟩
+    · obtain ⟨h1, h2⟩ := nextBack_refines cfg (A cfg (lower0 cfg) AS ai.k) VS VL it ai.f ai.b hr
+      by_cases hlt : ai.f + ai.b < VL
+      · have hv := (hG (by omega) (by omega)).vector ai.k hk
+        obtain ⟨it', e, hr'⟩ := h1 hlt hv
+        rw [Y_addr cfg m rows AS VS hoff] at e
+        simp only [sysStep, absStep, hs, ha, e, hlt, ↓reduceIte, bind, Except.bind, pure, Except.pure, concretize]
+        exact ⟨_, rfl, hrv, hrel.set i ⟨hr', hk⟩⟩
+      · have e := h2 hlt
+        simp only [sysStep, absStep, hs, ha, e, hlt, ↓reduceIte, bind, Except.bind, pure, Except.pure, concretize]
+        exact ⟨_, rfl, hrv, hrel.set_left i ha ⟨hr, hk⟩⟩
+  | iLen i =>
+    rcases hrel.get i with ⟨hn, hn'⟩ | ⟨it, ai, hs, ha, hr, hk⟩
+    · simp only [sysStep, absStep, hn, hn', pure, Except.pure, concretize]
+      exact ⟨_, rfl, hrv, hrel⟩
+    · have e := len_refines cfg (A cfg (lower0 cfg) AS ai.k) VS VL it ai.f ai.b hr
+        (fun hlt => (hG (by omega) (by omega)).vector ai.k hk)
+      simp only [sysStep, absStep, hs, ha, e, bind, Except.bind, pure, Except.pure, concretize]
+      exact ⟨_, rfl, hrv, hrel⟩
+
+theorem absRun_cons (AL VL : Nat) (a : ASys) (c : Call) (cs : List Call) :
+    absRun AL VL a (c :: cs) =
+      ((absRun AL VL (absStep AL VL a c).1 cs).1,
+        (absStep AL VL a c).2 :: (absRun AL VL (absStep AL VL a c).1 cs).2) := rfl
+
+theorem run_refines {α : Type} (cfg : Cfg) (m : Matrix α) (rows : Bool) (AS AL VS VL : Nat)
+    (hoff : ∀ k t, elemOffset m rows k t = k * AS + t * VS)
+    (hG : VL ≠ 0 → AL ≠ 0 → MValid cfg (lower0 cfg) AS AL VS VL) (calls : List Call) :
+    ∀ (s : Sys) (a : ASys), SysInv cfg AS AL VS VL s a →
+      ∃ s' obs, runSys cfg s calls = .ok (s', obs) ∧
+        obs = ((absRun AL VL a calls).2).map (concretize cfg m rows) := by
+  induction calls with
+  | nil => intro s a _; exact ⟨s, [], rfl, rfl⟩
+  | cons c cs ih =>
+    intro s a hinv
+    obtain ⟨s1, e1, inv1⟩ := step_refines cfg m rows AS AL VS VL hoff hG s a hinv c
+    obtain ⟨s', obs, e2, e3⟩ := ih s1 _ inv1
+    refine ⟨s', concretize cfg m rows (absStep AL VL a c).2 :: obs, ?_, ?_⟩
+    · simp only [runSys, e1, e2, bind, Except.bind, pure, Except.pure]
+    · rw [absRun_cons, e3]; rfl
+
+/-- construction succeeds; the strides `AS`, `VS` it uses place element `t` of vector `k` at
+`elemOffset` -/
+theorem open_ok {α : Type} (cfg : Cfg) (m : Matrix α) (h : m.Coh) (hc : CfgOk cfg m) (rows : Bool) :
+    ∃ it AS VS, openIter cfg m rows = .ok it ∧
+      (∀ k t, elemOffset m rows k t = k * AS + t * VS) ∧
+      RV cfg (lower0 cfg) AS (nVectors m rows) VS (vecLen m rows) it 0 0 := by
+  have hlen : cfg.len = m.shape.major * m.shape.minor := by rw [hc.len_eq, h.size_eq]
+  obtain ⟨hM1, hM2⟩ := overMajor_ok cfg m.shape hlen hc.fits hc.len_fits
+  obtain ⟨hm1, hm2⟩ := overMinor_ok cfg m.shape hlen hc.fits hc.len_fits
+  obtain ⟨o, sh, d⟩ := m
+  cases rows <;> cases o <;>
+    simp only [openIter, Vecs.rowsMut, Vecs.colsMut, nVectors, vecLen, elemOffset, Matrix.nrows,
+      Matrix.ncols, AxisShape.nrows, AxisShape.ncols, Matrix.idx, Index.flat, AxisIndex.flat,
+      AxisIndex.ofIndex, ↓reduceIte, Bool.false_eq_true] at *
+  · exact ⟨hm1, 1, sh.minor, hm2.1, fun k t => by omega, hm2.2⟩
+  · exact ⟨hM1, sh.minor, 1, hM2.1, fun k t => by omega, hM2.2⟩
+  · exact ⟨hM1, sh.minor, 1, hM2.1, fun k t => by omega, hM2.2⟩
+  · exact ⟨hm1, 1, sh.minor, hm2.1, fun k t => by omega, hm2.2⟩
+
+/-! ### the abstract system: which positions have been handed out -/
+
+/-- inner iterator `it` has handed out position `t` of its vector -/
+def Got (VL : Nat) (it : AInner) (t : Nat) : Prop := t < it.f ∨ (VL - it.b ≤ t ∧ t < VL)
+
+/-- the outer iterator has handed out vector `k` -/
+def Live (AL F B k : Nat) : Prop := k < F ∨ (AL - B ≤ k ∧ k < AL)
+
+/-- position `p` has been handed out by one of the inner iterators of `a` -/
+def Taken (VL : Nat) (a : ASys) (p : Nat × Nat) : Prop :=
+  ∃ (i : Nat) (it : AInner), a.inners[i]? = some it ∧ it.k = p.1 ∧ Got VL it p.2
+
+/-- invariant of the abstract system: the inner iterators stand for pairwise distinct vectors,
+exactly those the outer iterator has handed out -/
+structure AInv (AL VL : Nat) (a : ASys) : Prop where
+  outer : a.F + a.B ≤ AL
+  inner : ∀ (i : Nat) (it : AInner), a.inners[i]? = some it → it.f + it.b ≤ VL ∧ Live AL a.F a.B it.k
+  distinct : ∀ (i j : Nat) (it it' : AInner), a.inners[i]? = some it → a.inners[j]? = some it' →
+    it.k = it'.k → i = j
+  cover : ∀ k, Live AL a.F a.B k → ∃ (i : Nat) (it : AInner), a.inners[i]? = some it ∧ it.k = k
+
+theorem AInv.init (AL VL : Nat) : AInv AL VL ⟨0, 0, []⟩ := by
+  refine ⟨by simp, ?_, ?_, ?_⟩
+  · intro i it h; simp at h
+  · intro i j it it' h; simp at h
+  · intro k h; simp only [Live] at h; omega
+
+theorem Taken.init (VL : Nat) (p : Nat × Nat) : ¬ Taken VL ⟨0, 0, []⟩ p := by
+  rintro ⟨i, it, h, _⟩; simp at h
+
+/-- the outer iterator hands out vector `k`: a new untouched inner iterator, nothing yielded -/
+theorem push_spec (AL VL : Nat) (a : ASys) (F' B' k : Nat) (hinv : AInv AL VL a)
+    (hout : F' + B' ≤ AL)
+    (hlive : ∀ j, Live AL F' B' j ↔ Live AL a.F a.B j ∨ j = k)
+    (hnot : ¬ Live AL a.F a.B k) :
+    AInv AL VL ⟨F', B', a.inners ++ [⟨k, 0, 0⟩]⟩ ∧
+      ∀ q, Taken VL ⟨F', B', a.inners ++ [⟨k, 0, 0⟩]⟩ q ↔ Taken VL a q := by
+  refine ⟨⟨hout, ?_, ?_, ?_⟩, ?_⟩
+  · intro j x hx
+    simp only [getElem?_snoc_eq_some] at hx
+    rcases hx with hx | ⟨_, rfl⟩
+    · obtain ⟨h1, h2⟩ := hinv.inner j x hx
+      exact ⟨h1, (hlive _).mpr (Or.inl h2)⟩
+    · exact ⟨by simp, (hlive _).mpr (Or.inr rfl)⟩
+  · intro j j' x x' hx hx' hkk
+    simp only [getElem?_snoc_eq_some] at hx hx'
+    rcases hx with hx | ⟨hj, rfl⟩ <;> rcases hx' with hx' | ⟨hj', rfl⟩
+    · exact hinv.distinct j j' x x' hx hx' hkk
+    · have hkk' : x.k = k := hkk
+      exact absurd (hkk' ▸ (hinv.inner j x hx).2) hnot
+    · have hkk' : x'.k = k := hkk.symm
+      exact absurd (hkk' ▸ (hinv.inner j' x' hx').2) hnot
+    · omega
+  · intro k' hk'
+    rcases (hlive k').mp hk' with h | rfl
+    · obtain ⟨j, x, hx, hxk⟩ := hinv.cover k' h
+      exact ⟨j, x, getElem?_snoc_eq_some.mpr (Or.inl hx), hxk⟩
+    · exact ⟨a.inners.length, ⟨k', 0, 0⟩, getElem?_snoc_eq_some.mpr (Or.inr ⟨rfl, rfl⟩), rfl⟩
+  · intro q
+    constructor
+    · rintro ⟨j, x, hx, hxk, hg⟩
+      simp only [getElem?_snoc_eq_some] at hx
+      rcases hx with hx | ⟨_, rfl⟩
+      · exact ⟨j, x, hx, hxk, hg⟩
+      · simp only [Got] at hg; omega
+    · rintro ⟨j, x, hx, hxk, hg⟩
+      exact ⟨j, x, getElem?_snoc_eq_some.mpr (Or.inl hx), hxk, hg⟩
+
+/-- inner iterator `i` hands out position `p` and becomes `it1` -/
+theorem update_spec (AL VL : Nat) (a : ASys) (i : Nat) (it it1 : AInner) (p : Nat × Nat)
+    (hinv : AInv AL VL a) (hi : a.inners[i]? = some it) (hk : it1.k = it.k) (hp1 : p.1 = it.k)
+    (hp2 : p.2 < VL) (hle : it1.f + it1.b ≤ VL)
+    (hnew : ∀ t, Got VL it1 t ↔ Got VL it t ∨ t = p.2) (hfresh : ¬ Got VL it p.2) :
+    AInv AL VL ⟨a.F, a.B, a.inners.set i it1⟩ ∧
+      (∀ q, Taken VL ⟨a.F, a.B, a.inners.set i it1⟩ q ↔ Taken VL a q ∨ q = p) ∧
+      p.1 < AL ∧ ¬ Taken VL a p := by
+  have hilt : i < a.inners.length := lt_of_getElem?_eq_some hi
+  have hself : (a.inners.set i it1)[i]? = some it1 := getElem?_set_eq_some.mpr (Or.inl ⟨rfl, hilt, rfl⟩)
+  refine ⟨⟨hinv.outer, ?_, ?_, ?_⟩, ?_, ?_, ?_⟩
+  · intro j x hx
+    simp only [getElem?_set_eq_some] at hx
+    rcases hx with ⟨rfl, _, rfl⟩ | ⟨_, hx⟩
+    · exact ⟨hle, hk ▸ (hinv.inner _ it hi).2⟩
+    · exact hinv.inner j x hx
+  · intro j j' x x' hx hx' hkk
+    simp only [getElem?_set_eq_some] at hx hx'
+    rcases hx with ⟨hj, _, rfl⟩ | ⟨hne, hx⟩ <;> rcases hx' with ⟨hj', _, rfl⟩ | ⟨hne', hx'⟩
+    · omega
+    · exact absurd (hinv.distinct i j' it x' hi hx' (by rw [← hk]; exact hkk)).symm hne'
+    · exact absurd (hinv.distinct j i x it hx hi (by rw [← hk]; exact hkk)) hne
+    · exact hinv.distinct j j' x x' hx hx' hkk
+  · intro k' hk'
+    obtain ⟨j, x, hx, hxk⟩ := hinv.cover k' hk'
+    by_cases hj : j = i
+    · subst hj
+      rw [hi] at hx; cases hx
+      exact ⟨j, it1, hself, by rw [hk, hxk]⟩
+    · exact ⟨j, x, getElem?_set_eq_some.mpr (Or.inr ⟨hj, hx⟩), hxk⟩
+  · intro q
+    constructor
+    · rintro ⟨j, x, hx, hxk, hg⟩
+      simp only [getElem?_set_eq_some] at hx
+      rcases hx with ⟨rfl, _, rfl⟩ | ⟨_, hx⟩
+      · rcases (hnew q.2).mp hg with hg' | hq2
+        · exact Or.inl ⟨j, it, hi, by rw [← hk]; exact hxk, hg'⟩
+        · right
+          obtain ⟨q1, q2⟩ := q
+          obtain ⟨p1, p2⟩ := p
+          simp only at hq2 hxk hp1 ⊢
+          rw [hq2, ← hxk, hk, hp1]
+      · exact Or.inl ⟨j, x, hx, hxk, hg⟩
+    · rintro (⟨j, x, hx, hxk, hg⟩ | rfl)
+      · by_cases hj : j = i
+        · subst hj
+          rw [hi] at hx; cases hx
+          exact ⟨j, it1, hself, by rw [hk]; exact hxk, (hnew q.2).mpr (Or.inl hg)⟩
+        · exact ⟨j, x, getElem?_set_eq_some.mpr (Or.inr ⟨hj, hx⟩), hxk, hg⟩
+      · exact ⟨i, it1, hself, by rw [hk, hp1], (hnew _).mpr (Or.inr rfl)⟩
+  · have := (hinv.inner i it hi).2
+    simp only [Live] at this
+    have := hinv.outer
+    omega
+  · rintro ⟨j, x, hx, hxk, hg⟩
+    have hji := hinv.distinct j i x it hx hi (by rw [hxk, hp1])
+    subst hji
+    rw [hi] at hx; cases hx
+    exact hfresh hg
+
+theorem yielded_cons (o : AObs) (os : List AObs) : yielded (o :: os) = yielded [o] ++ yielded os := by
+  cases o with
+  | item pos => cases pos <;> simp [yielded]
+  | _ => simp [yielded]
+
+/-- one abstract call: the invariant is kept, and the positions handed out so far grow by exactly
+the (fresh, in-range) position the call yields, if any -/
+theorem astep_spec (AL VL : Nat) (a : ASys) (c : Call) (hinv : AInv AL VL a) :
+    AInv AL VL (absStep AL VL a c).1 ∧
+      (∀ q, Taken VL (absStep AL VL a c).1 q ↔ Taken VL a q ∨ q ∈ yielded [(absStep AL VL a c).2]) ∧
+      (∀ p ∈ yielded [(absStep AL VL a c).2], p.1 < AL ∧ p.2 < VL ∧ ¬ Taken VL a p) := by
+  have hout := hinv.outer
+  cases c with
+  | oNext =>
+    by_cases hlt : a.F + a.B < AL
+    · simp only [absStep, hlt, ↓reduceIte, yielded, List.not_mem_nil, or_false, false_imp_iff, implies_true, and_true]
+      exact push_spec AL VL a (a.F + 1) a.B a.F hinv (by omega)
+        (fun j => by simp only [Live]; omega) (by simp only [Live]; omega)
+    · simp only [absStep, hlt, ↓reduceIte, yielded, List.not_mem_nil, or_false, false_imp_iff, implies_true, and_true]
+      exact hinv
+  | oNextBack =>
+    by_cases hlt : a.F + a.B < AL
+    · simp only [absStep, hlt, ↓reduceIte, yielded, List.not_mem_nil, or_false, false_imp_iff, implies_true, and_true]
+      exact push_spec AL VL a a.F (a.B + 1) (AL - 1 - a.B) hinv (by omega)
+        (fun j => by simp only [Live]; omega) (by simp only [Live]; omega)
+    · simp only [absStep, hlt, ↓reduceIte, yielded, List.not_mem_nil, or_false, false_imp_iff, implies_true, and_true]
+      exact hinv
+  | oLen =>
+    simp only [absStep, yielded, List.not_mem_nil, or_false, false_imp_iff, implies_true, and_true]
+    exact hinv
+  | iNext i =>
+    cases hi : a.inners[i]? with
+    | none =>
+      simp only [absStep, hi, yielded, List.not_mem_nil, or_false, false_imp_iff, implies_true, and_true]
+      exact hinv
+    | some it =>
+      by_cases hlt : it.f + it.b < VL
+      · simp only [absStep, hi, hlt, ↓reduceIte, yielded, List.mem_singleton, forall_eq]
+        obtain ⟨h1, h2, h3, h4⟩ := update_spec AL VL a i it { it with f := it.f + 1 } (it.k, it.f) hinv hi
+          rfl rfl (by show it.f < VL; omega) (by show it.f + 1 + it.b ≤ VL; omega)
+          (fun t => by simp only [Got]; omega) (by simp only [Got]; omega)
+        exact ⟨h1, h2, h3, by show it.f < VL; omega, h4⟩
+      · simp only [absStep, hi, hlt, ↓reduceIte, yielded, List.not_mem_nil, or_false, false_imp_iff, implies_true, and_true]
+        exact hinv
+  | iNextBack i =>
+    cases hi : a.inners[i]? with
+    | none =>
+      simp only [absStep, hi, yielded, List.not_mem_nil, or_false, false_imp_iff, implies_true, and_true]
+      exact hinv
+    | some it =>
+      by_cases hlt : it.f + it.b < VL
+      · simp only [absStep, hi, hlt, ↓reduceIte, yielded, List.mem_singleton, forall_eq]
+        obtain ⟨h1, h2, h3, h4⟩ := update_spec AL VL a i it { it with b := it.b + 1 } (it.k, VL - 1 - it.b) hinv hi
+          rfl rfl (by show VL - 1 - it.b < VL; omega) (by show it.f + (it.b + 1) ≤ VL; omega)
+          (fun t => by simp only [Got]; omega) (by simp only [Got]; omega)
+        exact ⟨h1, h2, h3, by show VL - 1 - it.b < VL; omega, h4⟩
+      · simp only [absStep, hi, hlt, ↓reduceIte, yielded, List.not_mem_nil, or_false, false_imp_iff, implies_true, and_true]
+        exact hinv
+  | iLen i =>
+    cases hi : a.inners[i]? with
+    | none =>
+      simp only [absStep, hi, yielded, List.not_mem_nil, or_false, false_imp_iff, implies_true, and_true]
+      exact hinv
+    | some it =>
+      simp only [absStep, hi, yielded, List.not_mem_nil, or_false, false_imp_iff, implies_true, and_true]
+      exact hinv
+
+/-- a whole abstract run from any state satisfying the invariant -/
+theorem arun_spec (AL VL : Nat) (calls : List Call) :
+    ∀ a : ASys, AInv AL VL a →
+      AInv AL VL (absRun AL VL a calls).1 ∧
+      (yielded (absRun AL VL a calls).2).Nodup ∧
+      (∀ p ∈ yielded (absRun AL VL a calls).2, p.1 < AL ∧ p.2 < VL ∧ ¬ Taken VL a p) ∧
+      (∀ q, Taken VL (absRun AL VL a calls).1 q ↔ Taken VL a q ∨ q ∈ yielded (absRun AL VL a calls).2) := by
+  induction calls with
+  | nil =>
+    intro a hinv
+    exact ⟨hinv, by simp [absRun, yielded], by simp [absRun, yielded], by simp [absRun, yielded]⟩
+  | cons c cs ih =>
+    intro a hinv
+    obtain ⟨s1, s2, s3⟩ := astep_spec AL VL a c hinv
+    obtain ⟨r1, r2, r3, r4⟩ := ih _ s1
+    rw [absRun_cons]
+    dsimp only
+    rw [yielded_cons]
+    have hnd1 : (yielded [(absStep AL VL a c).2]).Nodup := by
+      cases (absStep AL VL a c).2 with
+      | item pos => cases pos <;> simp [yielded]
+      | _ => simp [yielded]
+    refine ⟨r1, ?_, ?_, ?_⟩
+    · rw [List.nodup_append]
+      refine ⟨hnd1, r2, ?_⟩
+      intro x hx y hy hxy
+      subst hxy
+      exact (r3 x hy).2.2 ((s2 x).mpr (Or.inr hx))
+    · intro p hp
+      rcases List.mem_append.mp hp with hp | hp
+      · exact s3 p hp
+      · obtain ⟨h1, h2, h3⟩ := r3 p hp
+        exact ⟨h1, h2, fun ht => h3 ((s2 p).mpr (Or.inl ht))⟩
+    · intro q
+      rw [r4 q, s2 q, List.mem_append, or_assoc]
+
+/-- all positions of an `AL × VL` grid -/
+theorem grid_mem (AL VL : Nat) (p : Nat × Nat) :
+    p ∈ ((List.range AL).flatMap fun k => (List.range VL).map fun t => (k, t)) ↔ p.1 < AL ∧ p.2 < VL := by
+  obtain ⟨p1, p2⟩ := p
+  simp only [List.mem_flatMap, List.mem_map, List.mem_range, Prod.mk.injEq]
+  constructor
+  · rintro ⟨k, hk, t, ht, rfl, rfl⟩; exact ⟨hk, ht⟩
+  · rintro ⟨hk, ht⟩; exact ⟨p1, hk, p2, ht, rfl, rfl⟩
+
+theorem grid_nodup (AL VL : Nat) :
+    ((List.range AL).flatMap fun k => (List.range VL).map fun t => (k, t)).Nodup := by
+  rw [List.nodup_iff_pairwise_ne, List.pairwise_flatMap]
+  constructor
+  · intro k _
+    rw [List.pairwise_map]
+    refine List.Pairwise.imp ?_ (List.nodup_iff_pairwise_ne.mp (List.nodup_range (n := VL)))
+    intro t t' hne h
+    exact hne (Prod.mk.inj h).2
+  · refine List.Pairwise.imp ?_ (List.nodup_iff_pairwise_ne.mp (List.nodup_range (n := AL)))
+    intro k k' hne x hx y hy h
+    simp only [List.mem_map, List.mem_range] at hx hy
+    obtain ⟨t, _, rfl⟩ := hx
+    obtain ⟨t', _, rfl⟩ := hy
+    exact hne (Prod.mk.inj h).1
+
 /-! ### the theorems -/
 
 /-- C03 refinement, every shape (element-less ones included), both orders, both axes, every
@@ -185,18 +563,29 @@ theorem system_refines {α : Type} (cfg : Cfg) (m : Matrix α) (h : m.Coh) (hc :
     ∃ it s obs, openIter cfg m rows = .ok it ∧
       runSys cfg ⟨it, []⟩ calls = .ok (s, obs) ∧
       obs = ((absRun (nVectors m rows) (vecLen m rows) ⟨0, 0, []⟩ calls).2).map (concretize cfg m rows) := by
-  sorry
+  obtain ⟨it, AS, VS, hopen, hoff, hrv⟩ := open_ok cfg m h hc rows
+  have hG : vecLen m rows ≠ 0 → nVectors m rows ≠ 0 →
+      MValid cfg (lower0 cfg) AS (nVectors m rows) VS (vecLen m rows) := by
+    intro h1 h2
+    rcases hrv with ⟨_, _, _, _, _, hv⟩ | ⟨_, _, _, hvl⟩
+    · exact hv
+    · exact absurd (hvl (by omega)) h1
+  obtain ⟨s, obs, e1, e2⟩ := run_refines cfg m rows AS _ VS _ hoff hG calls ⟨it, []⟩ ⟨0, 0, []⟩
+    ⟨hrv, Rel2.nil _⟩
+  exact ⟨it, s, obs, hopen, e1, e2⟩
 
 /-- in the abstract system no position is ever handed out twice, whatever the call sequence:
 each element is handed out as `&mut` at most once -/
 theorem yielded_nodup (AL VL : Nat) (calls : List Call) :
     (yielded (absRun AL VL ⟨0, 0, []⟩ calls).2).Nodup := by
-  sorry
+  exact (arun_spec AL VL calls _ (AInv.init AL VL)).2.1
 
 /-- every position handed out is a position of the matrix -/
 theorem yielded_in_range (AL VL : Nat) (calls : List Call) :
     ∀ p ∈ yielded (absRun AL VL ⟨0, 0, []⟩ calls).2, p.1 < AL ∧ p.2 < VL := by
-  sorry
+  intro p hp
+  obtain ⟨h1, h2, _⟩ := (arun_spec AL VL calls _ (AInv.init AL VL)).2.2.1 p hp
+  exact ⟨h1, h2⟩
 
 /-- when everything is exhausted (the outer iterator and every inner iterator it produced return
 `None`), every position has been handed out exactly once -/
@@ -205,21 +594,60 @@ theorem exhausted_exactly_once (AL VL : Nat) (calls : List Call)
     (hin : ∀ it ∈ (absRun AL VL ⟨0, 0, []⟩ calls).1.inners, it.f + it.b = VL) :
     (yielded (absRun AL VL ⟨0, 0, []⟩ calls).2).Perm
       ((List.range AL).flatMap fun k => (List.range VL).map fun t => (k, t)) := by
-  sorry
+  obtain ⟨r1, r2, r3, r4⟩ := arun_spec AL VL calls _ (AInv.init AL VL)
+  rw [List.perm_ext_iff_of_nodup r2 (grid_nodup AL VL)]
+  intro p
+  rw [grid_mem]
+  constructor
+  · intro hp
+    obtain ⟨h1, h2, _⟩ := r3 p hp
+    exact ⟨h1, h2⟩
+  · rintro ⟨h1, h2⟩
+    obtain ⟨i, it, hit, hk⟩ := r1.cover p.1 (by simp only [Live]; omega)
+    have hfb := hin it (List.mem_of_getElem? hit)
+    have ht : Taken VL (absRun AL VL ⟨0, 0, []⟩ calls).1 p :=
+      ⟨i, it, hit, hk, by simp only [Got]; omega⟩
+    rcases (r4 p).mp ht with h | h
+    · exact absurd h (Taken.init VL p)
+    · exact h
 
+set_option linter.unusedVariables false in
 /-- for sized element types distinct positions have distinct addresses (no two `&mut` alias), and
 every address is that of an element inside the buffer, aligned to the element size from `base` -/
 theorem addr_injective {α : Type} (cfg : Cfg) (m : Matrix α) (h : m.Coh) (hc : CfgOk cfg m)
     (hes : cfg.es ≠ 0) (rows : Bool) (p q : Nat × Nat)
     (hp : p.1 < nVectors m rows ∧ p.2 < vecLen m rows) (hq : q.1 < nVectors m rows ∧ q.2 < vecLen m rows)
     (he : addrOf cfg m rows p = addrOf cfg m rows q) : p = q := by
-  sorry
+  obtain ⟨p1, p2⟩ := p
+  obtain ⟨q1, q2⟩ := q
+  simp only [addrOf, hes, ↓reduceIte] at he
+  have hpos : 0 < cfg.es := Nat.pos_of_ne_zero hes
+  have hoff : elemOffset m rows p1 p2 = elemOffset m rows q1 q2 :=
+    Nat.eq_of_mul_eq_mul_right hpos (by omega)
+  cases rows
+  · simp only [elemOffset, nVectors, vecLen, Bool.false_eq_true, ↓reduceIte] at *
+    obtain ⟨e1, e2⟩ := m.idx_inj hp.2 hp.1 hq.2 hq.1 hoff
+    rw [e1, e2]
+  · simp only [elemOffset, nVectors, vecLen, ↓reduceIte] at *
+    obtain ⟨e1, e2⟩ := m.idx_inj hp.1 hp.2 hq.1 hq.2 hoff
+    rw [e1, e2]
 
 theorem addr_in_buffer {α : Type} (cfg : Cfg) (m : Matrix α) (h : m.Coh) (hc : CfgOk cfg m)
     (hes : cfg.es ≠ 0) (rows : Bool) (p : Nat × Nat)
     (hp : p.1 < nVectors m rows ∧ p.2 < vecLen m rows) :
     cfg.base ≤ addrOf cfg m rows p ∧ addrOf cfg m rows p + cfg.es ≤ cfg.base + cfg.len * cfg.es := by
-  sorry
+  obtain ⟨p1, p2⟩ := p
+  have hlt : elemOffset m rows p1 p2 < cfg.len := by
+    rw [hc.len_eq]
+    cases rows
+    · simp only [elemOffset, nVectors, vecLen, Bool.false_eq_true, ↓reduceIte] at *
+      exact m.idx_lt h hp.2 hp.1
+    · simp only [elemOffset, nVectors, vecLen, ↓reduceIte] at *
+      exact m.idx_lt h hp.1 hp.2
+  simp only [addrOf, hes, ↓reduceIte]
+  have : (elemOffset m rows p1 p2 + 1) * cfg.es ≤ cfg.len * cfg.es := Nat.mul_le_mul_right _ hlt
+  rw [Nat.add_mul, Nat.one_mul] at this
+  omega
 
 /-! ### non-vacuity: a 2×3 column-major matrix of 4-byte elements at address 4096 -/
 
